@@ -334,6 +334,56 @@ def tr_update_inout_ports(mod):
             "  | Some zs => match upd_loop zs s ports with Some (s', []) => Some s' | _ => None end\n  end.\n")
 
 
+# ---------------------------------------------------------------------------------------
+# BBLinearityChecker._check_comprehension: the loop that decides which outer places are fed
+# through the comprehension's TailLoop
+
+def tr_used_outer_places(mod):
+    fn = find_func(find_class(mod, "BBLinearityChecker"), "_check_comprehension")
+    init = loop = None
+    for node in ast.walk(fn):
+        if isinstance(node, ast.Assign) and ast.unparse(node.targets[0]) == "gen.used_outer_places":
+            if init is not None:
+                fail(node, "gen.used_outer_places assigned twice")
+            init = node
+        if isinstance(node, ast.For) and ast.unparse(node.iter) == "inner_scope.used_parent.items()" \
+                and any(isinstance(n, ast.Attribute) and n.attr == "used_outer_places" for n in ast.walk(node)):
+            if loop is not None:
+                fail(node, "two loops over inner_scope.used_parent")
+            loop = node
+    if init is None or ast.unparse(init.value) != "[]":
+        raise TranslatorError("C07 translator: `gen.used_outer_places = []` not found in _check_comprehension")
+    if loop is None or ast.unparse(loop.target) != "(x, use)" or loop.orelse:
+        raise TranslatorError("C07 translator: loop over inner_scope.used_parent.items() not found / changed")
+    # any other mention of used_outer_places in the function must be inside this loop
+    mentions = [n for n in ast.walk(fn) if isinstance(n, ast.Attribute) and n.attr == "used_outer_places"]
+    inside = [n for n in ast.walk(loop) if isinstance(n, ast.Attribute) and n.attr == "used_outer_places"]
+    if len(mentions) != len(inside) + 1:
+        fail(fn, "gen.used_outer_places is touched outside the translated loop")
+    body = loop.body
+    if len(body) != 3:
+        fail(loop, "expected `place = inner_scope[x]; gen.used_outer_places.append(place); if use.kind == UseKind.BORROW: ...`")
+    if ast.unparse(body[0]) != "place = inner_scope[x]":
+        fail(body[0], "place lookup changed")
+    if ast.unparse(body[1]) != "gen.used_outer_places.append(place)":
+        fail(body[1], "the append to gen.used_outer_places is no longer unconditional")
+    b = body[2]
+    if not (isinstance(b, ast.If) and ast.unparse(b.test) == "use.kind == UseKind.BORROW" and not b.orelse and len(b.body) == 1
+            and isinstance(b.body[0], ast.For) and ast.unparse(b.body[0].target) == "leaf"
+            and ast.unparse(b.body[0].iter) == "leaf_places(place)" and len(b.body[0].body) == 1
+            and ast.unparse(b.body[0].body[0]) == "inner_scope.use(leaf.id, InoutReturnSentinel(leaf), UseKind.RETURN)"):
+        fail(b, "the borrow branch changed")
+    return ("Section GenComp.\n(* X: place ids used from the outer scope, in order; Pl: places; U: use records *)\n"
+            "Variables X Pl U : Type.\nVariable inner_scope : X -> Pl.\nVariable is_borrow : U -> bool.\n"
+            "Variable leaf_places : Pl -> list Pl.\n\n"
+            "Definition used_outer_places (used_parent : list (X * U)) : list Pl :=\n"
+            "  map (fun '(x, use) => inner_scope x) used_parent.\n\n"
+            "(* the leaves marked as implicitly returned (used with UseKind.RETURN) in the inner scope *)\n"
+            "Definition returned_leaves (used_parent : list (X * U)) : list Pl :=\n"
+            "  flat_map (fun '(x, use) => if is_borrow use then leaf_places (inner_scope x) else []) used_parent.\n"
+            "End GenComp.\n")
+
+
 def translate(ctx) -> str:
     ty = parse_file(ctx.int_src("tys/ty.py"))
     ec = parse_file(ctx.int_src("compiler/expr_compiler.py"))
@@ -358,5 +408,6 @@ def translate(ctx) -> str:
            "Variables T P Sub W St : Type.\nVariable assign_leaf : P -> W -> St -> St.\nVariable contains_sub : P -> option Sub.\n"
            "Variable set_value_var : Sub -> St -> St.\nVariable visit_setitem : Sub -> St -> St.\n",
            tr_update_inout_ports(ec),
-           "End GenUpd.\n"]
+           "End GenUpd.\n",
+           tr_used_outer_places(parse_file(ctx.int_src("checker/linearity_checker.py")))]
     return "\n".join(out)
